@@ -86,10 +86,16 @@ def build_db(spec):
                     (b"\x00\xff" * size)[:size], (b"\xff\x00" * size)[:size], (b"\n\r\t " * size)[:size], (b"\xef\xbb\xbf" * size)[:size],
                     b"\x7f" * size, (b"\x00\x00\x01\x00" * size)[:size]]
             # the library's own format magics (SSE-2 keeps identifiers in the clear inside its serialized index)
-            pats += [(m + bytes([7]) * size)[:size] for m in HEADER_MAGICS if len(m) <= size]
-            pats += [(bytes([9]) * size + m)[-size:] for m in HEADER_MAGICS[:3] if len(m) < size]
+            magic_pats = [(m + bytes([7]) * size)[:size] for m in HEADER_MAGICS if len(m) <= size]
+            magic_pats += [(bytes([9]) * size + m)[-size:] for m in HEADER_MAGICS[:3] if len(m) < size]
             rot = (spec.get("id_seed", 0) + 3 * j) % len(pats)
-            for cand in pats[rot:] + pats[:rot]:
+            ordered = pats[rot:] + pats[:rot]
+            if magic_pats:
+                mrot = (spec.get("id_seed", 0) // 2 + 2 * j) % len(magic_pats)
+                mord = magic_pats[mrot:] + magic_pats[:mrot]
+                # identifiers long enough to hold a format magic: with an even seed every list starts with two of those
+                ordered = (mord[:2] + ordered + mord[2:]) if spec.get("id_seed", 0) % 2 == 0 else (ordered + mord)
+            for cand in ordered:
                 if len(ids) < n and any(cand) and cand not in seen:
                     seen.add(cand)
                     ids.append(cand)
